@@ -75,6 +75,12 @@ impl<'a> B2Gen<'a> {
             }
             self.name_ctr += 1;
             let n = self.name_ctr;
+            // names of the form the reader invents for anonymous lines, on explicitly named lines
+            if self.rng.chance(1, 12) {
+                let nm = format!("{}{}", self.rng.pick(&["_input_", "_state_", "_input", "_state", "_output_"]), if self.rng.flip() { self.rng.below(4).to_string() } else { String::new() });
+                self.issued.push(nm.clone());
+                return format!(" {nm}");
+            }
             let (nm, comment) = match self.rng.below(6) {
                 0 => (format!("sig{n}"), ""),
                 1 => (format!("top.u{n}.q"), ""),
